@@ -28,6 +28,8 @@ struct Normaliser {
   Poly norm(int t, bool fp);
   Poly normTrunc(int t, int len);
   Poly atom(int t);
+  std::map<std::string, int> polyAtoms;
+  int polyAtom(const char *kind, const Poly &p, int rep, int bytes);
   int mulCount(int t, std::unordered_map<int, int> &memo2); // number of multiplications in the expression tree
 };
 
